@@ -123,7 +123,14 @@ def label_program(ctx, g: ModelGrammar, tables: dict, program: Any, e: int = 0):
     it.allow_recursion = True
     it.strict_iter = True
     p = fn.params
-    env = {p[0]: program, p[1]: Sym("grammar"), f"{p[1]}.non_terminals": tables["self.non_terminals"],
+    # the grammar is an object of the Grammar class holding the tables its constructor / preprocess left: methods called on it
+    # (a helper that looks a distance up, a memo kept on the grammar) are followed with that state
+    from .grammodel import GRAMMAR
+    gfields = {k[5:]: v for k, v in tables.items() if k.startswith("self.") and "." not in k[5:]}
+    gfields["expansion_depthing"] = bool(e)
+    gfields.setdefault("abstract_dist_to_t", {})
+    gobj = Obj("Grammar", gfields, GRAMMAR) if GRAMMAR in prog.classes else Sym("grammar")
+    env = {p[0]: program, p[1]: gobj, f"{p[1]}.non_terminals": tables["self.non_terminals"],
            f"{p[1]}.expansion_depthing": bool(e), f"{p[1]}.abstract_dist_to_t": tables.get("self.abstract_dist_to_t", {})}
     try:
         runs = it.run(fn, env)
